@@ -88,7 +88,7 @@ impl MT942 {
         // Parse fields in standard order
         let field_20 = parser.parse_field::<Field20>("20")?;
         let field_21 = parser.parse_optional_field::<Field21NoOption>("21")?;
-        let field_25 = parser.parse_field::<Field25AccountIdentification>("25")?;
+        let field_25 = parser.parse_variant_field::<Field25AccountIdentification>("25")?;
         let field_28c = parser.parse_field::<Field28C>("28C")?;
 
         // Parse floor limit indicators (Field 34F appears twice)
